@@ -1438,7 +1438,7 @@ class StreamRecords(CodecJob):
     def configs(self):
         quick = self.tier == "quick"
         U = None
-        for L in (range(0, 6) if quick else range(0, 8)):
+        for L in (range(0, 6) if quick else range(0, 7)):
             yield {"L": L, "sym": list(range(L)), "max_size": U, "limit": U}
         for L in ((4,) if quick else (4, 5, 6)):
             for ms in (0, 1, 2):
@@ -1459,7 +1459,7 @@ class StreamRecords(CodecJob):
 
     def bounds(self):
         return ("StreamReader::next_record_bytes called until it returns None, with StreamChunker::pump replaced by the contract C08 decides (every admissible chunking of the stream: every length of every Data chunk), "
-                "chunk_judge closure from its MIR: EVERY byte stream of length <= 5 (quick) / 7 (thorough) with no limits; length 4 (4-6) with max_record_size 0/1/2 and every limit_offset; "
+                "chunk_judge closure from its MIR: EVERY byte stream of length <= 5 (quick) / 6 (thorough) with no limits; length 4 (4-6) with max_record_size 0/1/2 and every limit_offset; "
                 "10-11 byte streams with fixed delimiters / headers and symbolic payload and garbage bytes (Data chunks cut at their first byte, last byte or not at all)")
 
     def functions(self):
